@@ -405,6 +405,10 @@ def oracle(p, q, lam, native=None, python=None):
 def _report(run, p, q, lam, meta, bad, native, python, where):
     which, verdict, info = bad[0]
     key = f"oracle:{verdict}:{which}:{input_key(p, q, lam)}"
+    done = run.extra.setdefault("reported_keys", [])
+    if key in done or len(done) >= 12:          # one replay per input, at most a dozen per run
+        return
+    done.append(key)
     rp = {"clause": {"raises": "the solver terminates (returns without raising)",
                      "not-finite": "the weights are finite", "negative": "the weights are non-negative",
                      "zero-weight": "weights have the form multiplier*prior/(alpha-q) for a finite alpha",
@@ -501,8 +505,11 @@ def corr_native(run):
                     shard=max(1, n // (core.NPROC * (1 if run.quick else 4))))
     inputs = corpus_inputs()
     while len(inputs) < n:
-        # thorough: 10% of the cases take K up to 1200 (about 0.6 ms per element and iteration inside Coq)
-        kmax = kcap if (not run.quick and run.rng.random() < 0.1) else 135
+        # thorough: 10% of the cases take K up to 1200 and 2% up to 4572 (about 0.6 ms per element inside Coq)
+        kmax = 135
+        if not run.quick:
+            r = run.rng.random()
+            kmax = K_MAX if r < 0.02 else (kcap if r < 0.12 else 135)
         inputs.append(gen_input(run.rng, kmax))
     seen, dist, samples = set(), {"inf_or_raise": 0, "Kmax": 0}, []
     for p, q, lam, meta in inputs:
@@ -601,7 +608,7 @@ def corr_python(run):
         rec = r[2]
         if r[0] != "ok" or rec.get("iters") is None:
             raised += 1
-            bad, infos, native, python = oracle(p, q, lam, python=r[:2])
+            bad, infos, native, python = oracle(p, q, lam, python=r[:2]) if raised <= 5 else (None, None, None, None)
             if bad:
                 _report(run, p, q, lam, meta, bad, native, python, "correspondence (b): solve_policy_python raised")
             continue
@@ -645,6 +652,14 @@ def corr_python(run):
 # entry points
 # --------------------------------------------------------------------------
 def correspondence(run):
+    import time
+    t = [time.time()]
+    phase = {}
+
+    def lap(name):
+        t.append(time.time())
+        phase[name] = round(t[-1] - t[-2], 1)
+
     _impl()
     probe_torch_semantics(run)
     # corpus through the oracle first
@@ -652,10 +667,15 @@ def correspondence(run):
         bad, infos, native, python = oracle(p, q, lam)
         if bad:
             _report(run, p, q, lam, meta, bad, native, python, "corpus")
+    lap("impl+corpus")
     corr_native(run)
+    lap("native-bit-exact")
     corr_python(run)
+    lap("python-vs-Q")
     n = 5000 if run.quick else 200000
-    st = sweep(run, n, "oracle sweep (c)", budget_s=45 if run.quick else 480)
+    st = sweep(run, n, "oracle sweep (c)", budget_s=40 if run.quick else 500)
+    lap("oracle-sweep")
+    run.extra["phase_s"] = phase
     run.extra["oracle_sweep"] = {k: v for k, v in st.items() if k != "samples"}
     run.oblige("oracle sweep (c): both solvers meet the contract on every generated input of the regime",
                st["violations"] == 0, f"{st['violations']} of {st['n']} inputs violate the contract")
@@ -682,6 +702,15 @@ def search(run, broken):
 
 def replay(run, rp):
     _impl()
+    if "input" not in rp or "pi_bits" not in rp.get("input", {}):
+        # a replay that only names a broken obligation: re-run the corpus through the oracle
+        bads = []
+        for p, q, lam, meta in corpus_inputs():
+            bad, infos, native, python = oracle(p, q, lam)
+            bads += [{"input": meta, "solver": a, "verdict": b} for a, b, _ in bad]
+        return {"violates": bool(bads), "failures": bads,
+                "note": "this replay names a broken obligation, not an input; the corpus was re-run through the oracle",
+                "broken_obligations": [o.get("name") for o in rp.get("broken_obligations", [])]}
     p, q, lam = input_from_json(rp["input"])
     bad, infos, native, python = oracle(p, q, lam)
     return {"violates": bool(bad), "failures": [{"solver": a, "verdict": b, "detail": c} for a, b, c in bad],
